@@ -326,6 +326,9 @@ pub fn specials() -> Vec<Spec> {
         // an assertion that keeps its own assertions while its inner assertion is compressed / encrypted / elided
         n(l(1), vec![n(co(a(l(2), l(3))), vec![a(l(4), l(5))]), a(l(6), l(7))]),
         n(l(1), vec![n(en(a(l(2), l(3))), vec![a(l(4), l(5))]), n(el(a(l(6), l(7))), vec![a(l(8), l(9))])]),
+        // small known values (one-byte encodings) at subject / predicate / object
+        n(k(7), vec![a(k(8), k(9)), a(k(1), l(2))]),
+        k(3),
         // repeated content at several positions
         n(l(1), vec![a(l(2), l(1)), a(l(3), w(l(1))), a(l(2), l(4))]),
     ]
